@@ -1,7 +1,7 @@
 """C03 -- each yielded IVP point is a step of the advertised method (src/ivp.rs, src/ivp/rk.rs, adams.rs, bdf.rs)."""
 from vx.unit import Unit
 from vx.extract import Config
-from specs_ivpcommon import cfg, CALLBACK_SPEC, HIST_SPEC
+from specs_ivpcommon import cfg, CALLBACK_SPEC, HIST_SPEC, TRACE_SPEC
 
 RK = "src/ivp/rk.rs"
 
@@ -59,7 +59,7 @@ def tableau_cfg():
     c = Config(extra_subst=[("BSVector<Self::RealField, 6>", "Vec<R>"), ("BSVector<Self::RealField, 4>", "Vec<R>"),
                             ("BSMatrix<Self::RealField, 6, 6>", "KM<6>"), ("BSMatrix<Self::RealField, 4, 4>", "KM<4>"),
                             ("BSVector::from_column_slice", "vx_vec_from_slice"),      # R13: Vec<R> from a slice
-                            ("BSMatrix::from_vec", "KM::from_vec"), ("BSMatrix::from_row_slice", "KM::from_row_slice"),   # R26: matrix shim
+                            ("BSMatrix::from_vec", "KM::from_vec"), ("BSMatrix::from_row_slice", "KM::from_row_slice"), ("BSMatrix::from_column_slice", "KM::from_column_slice"),   # R26: matrix shim
                             ("Self::RealField", "R")])
     return c
 
@@ -139,12 +139,14 @@ def rk_step_unit(prop="C03"):
                    ("Step<Self::RealField, Self::Field, D, Self::Error>", "Result<(R, V), IVPStatus<IVPError>>")])
     c.extra = list(c.extra) + [(".row_iter()", ".rows.iter()", "R26-matrix-rows")]
     u = Unit(prop, "rk_step", preludes=("real", "stdx", "ivp", "rkm", "rkh"), cfg=c)
+    u.timeout = 240
     u.item("src/lib.rs", "enum", "DimensionError")
     u.item("src/ivp.rs", "enum", "IVPError")
     u.item("src/ivp.rs", "enum", "IVPStatus")
     u.item(RK, "struct", "RungeKuttaSolver")
     u.spec(CALLBACK_SPEC)
     u.spec(RK_SPEC)
+    u.spec(TRACE_SPEC)
     G = "<D: Dimension, const O: usize, T: Clone, F: FnMut(R, &[R], &mut T) -> Result<V, UserError>>"
     u.spec("impl" + G + r""" RungeKuttaSolver<D, O, T, F> {
     pub open spec fn a_row(&self, i: int) -> Seq<real> { vecr(self.k_coefficients.rows@[i]) }
@@ -178,7 +180,9 @@ def rk_step_unit(prop="C03"):
     im = u.impl(RK, "IVPStepper<D> for RungeKuttaSolver<'a, N, D, O, T, F>", header="impl" + G + " RungeKuttaSolver<D, O, T, F>", keep_assoc=False)
     f = im.fn("step")
     f.attrs = []
-    call = "(self.derivative)(\n                step_time.real(),\n                self.scratch_pad.as_slice(),\n                &mut self.data.clone(),\n            )"
+    call = "(self.derivative)(step_time.real(), self.scratch_pad.as_slice(), &mut self.data.clone(),)"
+    # R16: `e?` whose error is converted (From) spelled out as Rust defines it
+    f.opt(subst=[(call + "?", "(match " + call + " { Ok(v_) => v_, Err(e_) => return Err(From::from(e_)) })", "R16-question-mark-convert")])
     f.req("old(self).inv()")
     f.ens("final(self).inv()", "final(self).same_setup(old(self))",
           "old(self).time@ >= old(self).end@ ==> res is Err && res->Err_0 is Done && final(self).time == old(self).time && final(self).state == old(self).state",
@@ -190,6 +194,8 @@ def rk_step_unit(prop="C03"):
           "res is Ok ==> vnorm(esum(final(self).half_steps.cols@, vecr(old(self).error_coefficients), O as int)) / old(self).h() <= old(self).tolerance@",
           # C01: ordered, inside the interval, gap-bounded
           "res is Ok ==> old(self).time@ < res->Ok_0.0@ <= old(self).end@ && res->Ok_0.0@ - old(self).time@ <= old(self).dt_max@",
+          # C01: the clock contract that lemma_reaches_end (whole histories of calls) is stated over
+          "clock_rel(old(self).time@, old(self).end@, final(self).time@, res)",
           # a rejected trial commits nothing
           "res is Err && res->Err_0 is Redo ==> final(self).time == old(self).time && final(self).state == old(self).state",
           "res is Err ==> final(self).time@ == old(self).time@ || (res->Err_0 is Failure && res->Err_0->Failure_0 is MinimumTimeDeltaExceeded)")
@@ -334,13 +340,16 @@ pub open spec fn rk_y(t: real, y: Seq<real>, h: real, n: int, half: real, two: r
 """
 
 
+ADAMS_CALL = "(self.derivative)(self.time.real() + self.dt.real(), predictor.as_slice(), &mut self.data.clone(),)"
+
+
 def adams_solver_unit(prop="C03"):
     c = cfg(extra=[("AdamsSolver<'a, N, D, O, T, F>", "AdamsSolver<D, O, T, F>"), ("BSVector<N, O>", "Vec<R>"),
                    ("Step<Self::RealField, Self::Field, D, Self::Error>", "Result<(R, V), IVPStatus<IVPError>>")])
     u = Unit(prop, "adams_solver", preludes=("real", "stdx", "ivp", "rkm", "deque"), cfg=c)
     u.crate_attrs = ["#![feature(allocator_api)]"]
     u.rlimit = 300
-    u.timeout = 900
+    u.timeout = 400
     u.spec("use std::collections::VecDeque;")
     u.item("src/lib.rs", "enum", "DimensionError")
     u.item("src/ivp.rs", "enum", "IVPError")
@@ -447,6 +456,7 @@ def adams_solver_unit(prop="C03"):
                  ("&corrector - &predictor", "corrector.vx_sub_ref(&predictor)", "R29-ref-operator-as-call"),
                  # R16: `e?` whose error is converted (From) spelled out as Rust defines it
                  ("self.runge_kutta(1)?", "(match self.runge_kutta(1) { Ok(v_) => v_, Err(e_) => return Err(From::from(e_)) })", "R16-question-mark-convert"),
+                 (ADAMS_CALL + "?", "(match " + ADAMS_CALL + " { Ok(v_) => v_, Err(e_) => return Err(From::from(e_)) })", "R16-question-mark-convert"),
                  ("self.runge_kutta(O - 1)?", "(match self.runge_kutta(O - 1) { Ok(v_) => v_, Err(e_) => return Err(From::from(e_)) })", "R16-question-mark-convert")])
     g.req("old(self).inv()")
     g.ens(# the solver invariant is kept, except after a Failure (the iterator never calls step() again) and in the corner of an
@@ -467,11 +477,19 @@ def adams_solver_unit(prop="C03"):
           "(old(self).yield_memory == 0 || old(self).yield_memory == O) && old(self).time@ + old(self).dt@ < old(self).end@ && old(self).pv().len() > 0 && res is Ok ==> "
           "res->Ok_0.0@ == old(self).time@ + old(self).dt@ && res->Ok_0.1@ == old(self).corrector() && old(self).err() <= old(self).tolerance@ "
           "&& final(self).time@ == res->Ok_0.0@ && final(self).state@ == res->Ok_0.1@ && df_ok(old(self).time@ + old(self).dt@, old(self).predictor())",
+          # -- no room for a start-up before the end: one classical RK4 step of the current length, yielded at once
+          "old(self).yield_memory != O + 1 && !(0 < old(self).yield_memory < O) && old(self).time@ + old(self).dt@ < old(self).end@ && old(self).pv().len() == 0 "
+          "&& old(self).time@ + old(self).dt@ * old(self).order@ >= old(self).end@ && res is Ok ==> res->Ok_0.0@ == old(self).time@ + old(self).dt@ "
+          "&& res->Ok_0.1@ == old(self).rk4s(old(self).time@, old(self).state@, old(self).dt@) && final(self).time@ == res->Ok_0.0@ && final(self).state@ == res->Ok_0.1@",
+          # C01: the solver never answers Done, and never takes the final clipped step, while start-up points still wait to be yielded
+          "res is Err && res->Err_0 is Done ==> !(old(self).yield_memory == O && old(self).pv().len() == O - 1)",
+          "(old(self).yield_memory == 0 || old(self).yield_memory == O) && old(self).time@ < old(self).end@ && old(self).time@ + old(self).dt@ >= old(self).end@ "
+          "==> !(old(self).yield_memory == O && old(self).pv().len() == O - 1)",
           # C01: ordered, inside the interval, gap-bounded (for the points produced by this call)
           "(old(self).yield_memory == 0 || old(self).yield_memory == O) && res is Ok ==> old(self).time@ < res->Ok_0.0@ <= old(self).end@ && res->Ok_0.0@ - old(self).time@ <= old(self).dt_max@")
     def A(x):
         return (f"O as int, {x}.dt@, {x}.dt_max@, {x}.yield_memory as int, {x}.time@, {x}.end@, {x}.pv(), {x}.pd(), {x}.save_state@.len(), {x}.state@, {x}.implicit_derivs@")
-    g.hint("begin", "let ghost s0 = *self; proof { lemma_hist_basic(" + A("s0") + "); if !((s0.yield_memory == 0 || s0.yield_memory == O) && s0.time@ >= s0.end@) { lemma_hist_use(" + A("s0") + "); } }")
+    g.hint("begin", "let ghost s0 = *self; proof { lemma_hist_basic(" + A("s0") + "); if !(s0.time@ >= s0.end@ && (s0.yield_memory == 0 || s0.yield_memory == O)) { lemma_hist_use(" + A("s0") + "); } }")
     # -- yield a start-up point
     g.hint("before: return Ok(self.prev_values[get_item]", "proof { lemma_hist_yield(O as int, s0.dt@, s0.dt_max@, s0.yield_memory as int, self.yield_memory as int, s0.time@, s0.end@, s0.pv(), s0.pd(), s0.save_state@.len(), s0.state@, s0.implicit_derivs@); }")
     # -- hand the first multistep point over
@@ -491,15 +509,15 @@ def adams_solver_unit(prop="C03"):
             lemma_hist_done(""" + A("self") + """);
         }""")
     # -- start-up
-    g.hint("before: self.runge_kutta(O - 1)", """let ghost pre5 = *self;
-            proof {
-                let a = s0.end@ - s0.time@; let b = self.order@ - 1real; let d0 = s0.dt@;
-                assert(b >= 2real);
-                if self.dt@ != d0 {
-                    assert(a / b > 0real) by(nonlinear_arith) requires a > 0real, b > 0real;
-                    assert(a / b <= d0) by(nonlinear_arith) requires a <= d0 * b, b > 0real;
-                }
+    # -- no room for a start-up: one RK4 step, yielded at once
+    g.hint("before: #2 self.runge_kutta(1)", "let ghost pre6 = *self;")
+    g.hint("before: #2 return Ok((self.time.real(), self.state.clone()));", """proof {
+                reveal_with_fuel(rk_t, 2); reveal_with_fuel(rk_y, 2);
+                assert(pre6.rkt(1) == pre6.time@ + pre6.dt@);
+                assert(pre6.rky(1) == pre6.rk4s(pre6.time@, pre6.state@, pre6.dt@));
+                lemma_hist_empty(""" + A("self") + """);
             }""")
+    g.hint("before: self.runge_kutta(O - 1)", "let ghost pre5 = *self;")
     g.hint("before: #1 return Err(IVPStatus::Redo);", """proof {
                 let pvn = pvv(self.prev_values); let pdn = pdv(self.prev_derivatives); let dim = self.state@.len();
                 assert(pvv(pre5.prev_values).len() == 0 && pdv(pre5.prev_derivatives).len() == 0);
@@ -513,12 +531,12 @@ def adams_solver_unit(prop="C03"):
                 assert(pvn.len() == O - 1 && pdn.len() == O - 1);
                 assert(self.dt@ > 0real && self.dt@ <= self.dt_max@);
                 lemma_rk_t(pre5.time@, pre5.dt@, O - 1);
-                let m = (O - 1) as real; let hh = pre5.dt@; let a = s0.end@ - s0.time@; let d0 = s0.dt@;
-                assert(m == self.order@ - 1real);
+                let m = (O - 1) as real; let hh = pre5.dt@; let od = self.order@;
+                assert(m == od - 1real);
                 assert(self.time@ == pre5.time@ + m * hh);
-                if s0.time@ + d0 * m >= s0.end@ { assert(hh == a / m); assert(m * (a / m) == a) by(nonlinear_arith) requires m >= 2real; }
-                else { assert(hh == d0); assert(m * hh == hh * m) by(nonlinear_arith); }
-                assert(self.time@ <= self.end@);
+                assert(m * hh + hh == hh * od) by(nonlinear_arith) requires m == od - 1real;
+                assert(hh > 0real);
+                assert(self.time@ + self.dt@ < self.end@);
                 assert(self.save_state@.len() == dim);
                 assert(pvn[pvn.len() - 1] == (self.time@, self.state@));
                 lemma_hist_intro(""" + A("self") + """);
@@ -554,14 +572,14 @@ def adams_solver_unit(prop="C03"):
                 assert(self.pv() =~= pre.pv().push((self.time@, self.state@)).drop_first());
                 assert(self.pd() =~= pre.pd().push(self.implicit_derivs@).drop_first());
             }""")
-    g.hint("before: self.prev_values.clear();", """proof {
+    g.hint("before: #2 self.prev_values.clear();", """proof {
                     let d = pre.dt@; let qq = q@; let e = error@; let tl = self.tolerance@;
                     if e != 0real {
                         assert(tl / (2real * e) > 0real) by(nonlinear_arith) requires tl > 0real, e > 0real;
                         assert(d * 4real > 0real && (qq > 0real ==> d * qq > 0real)) by(nonlinear_arith) requires d > 0real;
                     }
                 }""")
-    g.hint("before: #2 return Ok((self.time.real(), self.state.clone()));", """proof {
+    g.hint("before: #3 return Ok((self.time.real(), self.state.clone()));", """proof {
                 if self.pv().len() == 0 && error@ != 0real { lemma_hist_empty(""" + A("self") + """); }
             }""")
     # rejected
